@@ -54,7 +54,7 @@ ly_per_m = 1.05702341e-16
 rsun_per_m = 1.4378145e-9
 rearth_per_m = 1.56961033e-7  # Mean (volumetric) radius
 rjup_per_m = 1.43039006737e-8  # Mean (volumetric) radius
-au_per_m = 6.68458712e-12
+au_per_m = 6.684587122268445e-12  # 1 / 149597870700 (IAU 2012 B2)
 ang_per_m = 1.0e10
 
 m_per_fpc = 0.0324077929
